@@ -1,4 +1,6 @@
 """C01 — calling a generated trait method is calling the original function."""
+import re
+
 from ..common import Report, log
 from ..corpus import load, load_repo_tests
 from ..wrules import check_fnmod_delegation
@@ -7,11 +9,68 @@ RULE_TEXT = ("R-DELEG over every fn/mod expansion of the witness corpus: the typ
              "generated impl method is exactly one call whose resolved callee is the original function of the "
              "same name (same scope), whose operands are the method's own parameter bindings each once in "
              "declared order (receiver first unless no_deps), awaited iff the original is async; no other "
-             "call, statement, await or control flow; MIR cross-check for sync bodies.")
+             "call, statement, await or control flow; MIR cross-check for sync bodies. "
+             "G-ORDER (universal, on the MIR of entrait_macros): no order-sensitive operation (rev/skip/take/zip/"
+             "sort/swap/remove/nth/…) is applied to a list of FnArg / GenericParam / WherePredicate / TypeParamBound / "
+             "Attribute / TraitFn / ModItem / ImplItem beyond the reviewed table rules/c01_order.json.")
+
+
+ORDERED = re.compile(r"\b(FnArg|GenericParam|WherePredicate|TypeParamBound|Attribute|TraitItem|TraitFn|ModItem|ImplItem|SubAttribute|PatType)\b")
+ORDER_SENSITIVE = re.compile(r"::(rev|skip|take|step_by|zip|chain|nth|sort\w*|swap|reverse|remove|pop|truncate|retain|dedup\w*|split_\w+|insert|"
+                             r"index|index_mut|skip_while|take_while|cycle|swap_remove|drain|rotate_\w+|max\w*|min\w*|position|rposition|rfind|next_back|nth_back|"
+                             r"rsplit\w*|chunks\w*|windows|partition\w*|interleave\w*|peekable|fuse|scan|flat_map|flatten|rev_\w+|sorted\w*)$")
+
+
+def order_sites(facts):
+    from ..grules import strip_generics, fn_of
+    out = []
+    for b in facts["bodies"]:
+        if b.get("stolen"):
+            continue
+        for c in b["calls"]:
+            d = strip_generics(c.get("def") or "")
+            if not ORDER_SENSITIVE.search(d):
+                continue
+            tys = " ".join(c.get("gargs_s", []) + c["arg_tys"])
+            el = sorted(set(ORDERED.findall(tys)))
+            if el:
+                out.append(((d, tuple(el)), b, c))
+    return out
+
+
+def order_rule(rep):
+    """G (universal): the generator applies no order-sensitive operation to its ordered input lists beyond the
+    reviewed table — this is what lets the verdict on arities 0..6 speak for arity n."""
+    import json, os
+    from ..common import VERIF
+    from ..grules import load_gen, load_controls, fn_of, where
+    ctl = set(fn_of(b["path"]).split("::")[-1] for k, b, c in order_sites(load_controls()))
+    for want in ("ctl_order_rev", "ctl_order_skip", "ctl_order_take", "ctl_order_swap"):
+        rep.require(want in ctl, "positive control `%s` was not flagged by the order rule" % want)
+    rep.require("ctl_order_ok" not in ctl, "negative control `ctl_order_ok` was flagged by the order rule")
+    with open(os.path.join(VERIF, "rules", "c01_order.json")) as f:
+        table = {(s["callee"], tuple(s["elems"])): s for s in json.load(f)["sites"]}
+    facts, _ = load_gen()
+    seen = {}
+    for key, b, c in order_sites(facts):
+        seen.setdefault(key, []).append((b, c))
+        rep.count("order_sensitive_sites")
+    for key, occ in sorted(seen.items()):
+        entry = table.get(key)
+        desc = "%s on %s" % (key[0], "/".join(key[1]))
+        if entry is None:
+            for b, c in occ:
+                rep.add("G-ORDER", "unreviewed " + desc, "`%s` applies the order-sensitive `%s` to a list of %s (a generated method could skip, repeat or permute parameters)"
+                        % (fn_of(b["path"]), key[0], "/".join(key[1])), where=where(b, c))
+        elif len(occ) > entry["count"]:
+            rep.add("G-ORDER", "more-sites " + desc, "%d sites of `%s`, %d were reviewed (%s): %s"
+                    % (len(occ), desc, entry["count"], entry["reason"], ["%s@%s" % (fn_of(b["path"]).split("::")[-1], where(b, c)) for b, c in occ]))
+    rep.floor("order_sensitive_sites", 5)
 
 
 def run(tier):
     rep = Report("C01", tier, "translation_validation")
+    order_rule(rep)
     configs = ["plain", "unimock_test"] if tier == "quick" else ["plain", "test", "unimock", "unimock_test"]
     programs = 0
     loaded = [(cfg, load(rep, "pos", cfg)) for cfg in configs]
